@@ -25,14 +25,37 @@ def run_impl(case, env):
     return tftp_adapter.run_session(case)
 
 
+def parts_of(case, obs):
+    """a session with several datagrams is judged datagram by datagram"""
+    if not case.get("more") or "parts" not in obs:
+        return [(case, obs)]
+    base = {k: v for k, v in case.items() if k not in ("more",)}
+    subs = [dict(base)] + [dict(base, datagram=m["datagram"], script=m.get("script", [])) for m in case["more"]]
+    return list(zip(subs, obs["parts"]))
+
+
 def model_requests(case, obs):
-    if obs.get("runaway"):
-        obs = {k: v for k, v in obs.items() if k != "transfers"}   # an endless trace is not sent to the driver
-    return [T.model_request(T.strip_meta(case), obs)]
+    reqs = []
+    for c, o in parts_of(case, obs):
+        if o.get("runaway"):
+            o = {k: v for k, v in o.items() if k != "transfers"}   # an endless trace is not sent to the driver
+        reqs.append(T.model_request(T.strip_meta(c), o))
+    return reqs
 
 
 def make_judge(required, project, need_request_port=True, extra=None, nontrivial_port=False):
     def judge(case, obs, resps):
+        if case.get("more") and "parts" in obs:
+            js = [judge1(c, o, [r]) for (c, o), r in zip(parts_of(case, obs), resps)]
+            bad = [j for j in js if not j.spec_ok] or [j for j in js if not j.agree]
+            j = bad[0] if bad else js[0]
+            j.case = case
+            j.kind = "multi/" + j.kind
+            j.nontrivial = any(x.nontrivial for x in js)
+            return j
+        return judge1(case, obs, resps)
+
+    def judge1(case, obs, resps):
         v = T.SessionView(case, obs, resps[0])
         meta = case.get("_meta", {})
         kind = f"{v.kind}/{meta.get('style', '-')}/{meta.get('handler', '-')}"
